@@ -188,6 +188,19 @@ func c01Run(e *core.Env) {
 			}
 		}
 	}
+	// WIDE-EDGE family (space.go): wide products at the edges of the exponent range
+	for iw, w := range wideEdge() {
+		if !e.Mine(int64(iw)) {
+			continue
+		}
+		e.State()
+		y := w.Y
+		for _, cc := range w.Ctxs {
+			for _, op := range c01Binary {
+				do(op, w.X, &y, cc, "")
+			}
+		}
+	}
 	// precision 0: exact results, package exponent range
 	p0 := []CtxCase{MkCtx(0, -100000, 100000, apd.RoundHalfUp, 0), MkCtx(0, -100000, 100000, apd.RoundFloor, 0), MkCtx(0, -100000, 100000, "", 0)}
 	p0x := append(append([]Operand{}, sp.Us...), limitOperands()...)
@@ -261,7 +274,7 @@ func init() {
 		Title: "Add/Sub/Mul/Quo/Abs/Neg/Round return the exactly rounded result",
 		Rule:  "every (operation x operand tuple x context) point of the finite product is executed on the real code and compared with the reference model's single rounding of the exact result; a case is non-trivial when the reference result is inexact, subnormal, overflowing or at a system limit (class != */exact)",
 		Bounds: func(tier string) string {
-			return buildArithSpace(tier, 0).Desc + "; ops Add,Sub,Mul,Quo on X x Y; Abs,Neg,Round,SetString(3 spellings) on U; precision 0 with the package range; LIMIT x LIMIT at p in {1,3}"
+			return buildArithSpace(tier, 0).Desc + "; ops Add,Sub,Mul,Quo on X x Y; Abs,Neg,Round,SetString(3 spellings) on U; precision 0 with the package range; LIMIT x LIMIT at p in {1,3}; WIDE-EDGE family: 8x8 coefficient pairs of 10..21 digits x precision {n-1,n,n+1,60} x 3 modes x MinExponent/MaxExponent -2..+2 steps around the adjusted exponent of the exact product"
 		},
 		Run:    c01Run,
 		Replay: c01Replay,
